@@ -28,6 +28,8 @@ enum FaultKind {
   F_APPEND,      // a = n, b = seed
   F_TAMPER,      // a = event index, b = variant (applied at encode time)
   F_FLIPBIT,     // a = bit offset
+  F_BYZ,         // a = instance seed, b = mode: the whole stream is replaced by
+                 // an instance of the Byzantine Edgebreaker writer (byz.cc)
   F_NUM_KINDS
 };
 
